@@ -214,6 +214,9 @@ def absent_component_stream(ctx, stream, n):
     """diagrams naming a component the architecture does not have, next to rules that are violated (C13)"""
     rng = ctx.rng("absent-components")
     cases = [make_case(rng, gen.PLAIN, absent=True) for _ in range(n)]
+    for c in cases[: n // 5]:
+        # a diagram that draws the absent component alone (no other component, no arrow): it is looked up all the same
+        c["comps"], c["arrows"] = [c["absent"]], []
     judge(ctx, stream, cases)
 
 
